@@ -311,6 +311,8 @@ class OpaqueString(Plugin):
         if not ks: return '((struct v_str){0, 0})'
         if self.is_cstr(unit.strip(ks[0])): return 'v_str_any()'      # from a C string: contents abstract
         real = [k for k in ks if k['kind'] != 'CXXDefaultArgExpr']
+        if len(real) == 2 and self.is_cstr(unit.strip(real[0])) and unit.is_intlike(real[1]):      # string(ptr, n): reads n bytes at ptr
+            return 'v_str_from(%s, %s)' % (unit.expr(real[0]), unit.expr(real[1]))
         if len(real) == 2 and unit.is_intlike(real[0]):      # string(n, ch)
             unit.stmt_may_throw = True
             return 'v_str_n(%s)' % unit.expr(real[0])
@@ -344,6 +346,14 @@ class OpaqueJson(Plugin):
         if 'nlohmann' in name or name in ('Json', 'tbox::Json'): return 'struct v_json'
         return None
     def is_model_type(self, ct): return ct.replace('const ', '').strip() == 'struct v_json'
+    def local_object(self, unit, v, ct, name, ks, p):
+        unit.w(p + 'struct v_json %s;' % name)
+    def free_call(self, unit, name, rd, args, n):
+        if name in ('CatchThrow', 'CatchThrowQuietly') and args:
+            # the guarded callable is a lambda around Json::parse: whether it throws is the parser's business (any answer)
+            unit.dropped.append('lambda body passed to %s in %s (Json::parse)' % (name, unit.cur))
+            return 'v_json_parse_throws()'
+        return None
     def member_call(self, unit, n, me, base, args):
         if not self.is_json(base): return None
         b = unit.expr(base); f = b if me.get('isArrow') else unit.addr_text(b)
